@@ -334,14 +334,21 @@ def all_graphs(n):
 
 
 def is_dag(n, edges):
-    indeg_free = set(range(n))
-    es = list(edges)
-    while True:
-        leaves = {u for u in indeg_free if not any(a == u and b in indeg_free for a, b in es)}
+    succ = [0] * n
+    for a, b in edges:
+        if a == b:
+            return False
+        succ[a] |= 1 << b
+    alive = (1 << n) - 1
+    while alive:
+        leaves = 0
+        for u in range(n):
+            if alive >> u & 1 and not succ[u] & alive:
+                leaves |= 1 << u
         if not leaves:
-            break
-        indeg_free -= leaves
-    return not indeg_free
+            return False
+        alive &= ~leaves
+    return True
 
 
 def all_dags(n):
@@ -651,38 +658,40 @@ def run(ctx):
                 'modules, at least one attachment, and the node either came up and was shut down or was rejected with errors')
     rng = ctx.rng
     thorough = ctx.tier == 'thorough' or ctx.escalated
-    cases = []
-    cdir = os.path.join(ctx.verif, 'corpus', 'C15')
-    if os.path.isdir(cdir):
-        for fn in sorted(os.listdir(cdir)):
-            with open(os.path.join(cdir, fn)) as f:
-                cases.append(('corpus', json.load(f)['case']))
-    # exhaustive part
-    for n in (1, 2, 3):
-        for edges in all_graphs(n):
-            for v in (['plain', 'touchy', 'fail', 'missing', 'hio', 'pin', 'slow'] if n > 1 else VARIANTS):
-                cases.append((f'n{n}', build_case(rng, n, edges, v)))
-    reps = ctx.budget(1, 3)
-    for edges in all_graphs(4):
-        for _ in range(reps):
-            cases.append(('n4', build_case(rng, 4, edges, rng.choice(VARIANTS))))
-    if thorough:
-        for edges in all_dags(5):
-            cases.append(('n5dag', build_case(rng, 5, edges, rng.choice(VARIANTS))))
-        for _ in range(ctx.budget(0, 30000)):
-            cases.append(('n5rnd', build_case(rng, 5, random_graph(rng, 5, False), rng.choice(VARIANTS))))
-    # self loops and random schedules
-    for _ in range(ctx.budget(300, 4000)):
-        n = rng.choice([2, 3, 4])
-        c = build_case(rng, n, random_graph(rng, n, rng.random() < 0.7), rng.choice(VARIANTS + ['slow', 'hio']))
-        c['_random_sched'] = True
-        cases.append(('sched', c))
+    def gen_cases():
+        cdir = os.path.join(ctx.verif, 'corpus', 'C15')
+        if os.path.isdir(cdir):
+            for fn in sorted(os.listdir(cdir)):
+                with open(os.path.join(cdir, fn)) as f:
+                    yield 'corpus', json.load(f)['case']
+        # exhaustive part: every labelled digraph (= attachment graph x declaration order) on up to 3 modules with
+        # every variant, on 4 modules with one (quick) / three (thorough) random variants
+        for n in (1, 2, 3):
+            for edges in all_graphs(n):
+                for v in (['plain', 'touchy', 'fail', 'missing', 'hio', 'pin', 'slow'] if n > 1 else VARIANTS):
+                    yield f'n{n}', build_case(rng, n, edges, v)
+        for _ in range(ctx.budget(300, 3000)):      # self loops, random schedules
+            n = rng.choice([2, 3, 4])
+            c = build_case(rng, n, random_graph(rng, n, rng.random() < 0.7), rng.choice(VARIANTS + ['slow', 'hio']))
+            c['_random_sched'] = True
+            yield 'sched', c
+        for _ in range(ctx.budget(1, 3)):
+            for edges in all_graphs(4):
+                yield 'n4', build_case(rng, 4, edges, rng.choice(VARIANTS))
+        if thorough:
+            # 5 modules: all 29281 labelled DAGs, then random digraphs (cycles included) until the time is used up
+            for edges in all_graphs(5):
+                if is_dag(5, edges):
+                    yield 'n5dag', build_case(rng, 5, edges, rng.choice(VARIANTS))
+            while True:
+                yield 'n5rnd', build_case(rng, 5, random_graph(rng, 5, False), rng.choice(VARIANTS))
 
-    t_end = time.time() + (42 if ctx.tier == 'quick' else 13 * 60)
+    cases = gen_cases()
+    t_end = time.time() + (42 if ctx.tier == 'quick' else 11 * 60)
     reqs, metas = [], []
     for kind, case in cases:
         if time.time() > t_end:
-            res.notes.append(f'time budget reached after {len(metas)} of {len(cases)} cases')
+            res.notes.append(f'time budget reached after {len(metas)} cases (last kind: {kind})')
             break
         policy = None
         if case.pop('_random_sched', False):
